@@ -25,6 +25,9 @@ func (s *ModelServer) Unwrap() any {
 }
 
 func (s *ModelServer) ListChildren(_ context.Context, request *traits.ListChildrenRequest) (*traits.ListChildrenResponse, error) {
+	if err := checkPageSize(request.GetPageSize()); err != nil {
+		return nil, err
+	}
 	pageToken := &types.PageToken{}
 	if err := decodePageToken(request.PageToken, pageToken); err != nil {
 		return nil, err
